@@ -4,6 +4,7 @@ import (
 	"errors"
 	"io"
 	"net"
+	"os"
 	"time"
 
 	"github.com/creack/pty"
@@ -190,4 +191,35 @@ func VH_C18_exec_status_roundtrip() {
 	}
 	verifAssert(c11Tube.off == len(c11Tube.in), "C18: getStatus consumes exactly what SendFailure wrote")
 	verifCover("failure")
+}
+
+// The window-size tube of a session: the server starts HandleSize with the
+// session's pty - which is nil for commands run WITHOUT a pty. Whatever the peer
+// writes (any number of complete or partial size updates), and whether or not
+// resizing fails, the reader returns without panicking.
+
+func c11Setsize(f *os.File, ws *pty.Winsize) error {
+	if f == nil || verifBool("resize-fails") {
+		return errors.New("bad file descriptor")
+	}
+	return nil
+}
+func c11RelClose(t *tubes.Reliable) error { return nil }
+
+//verif:prop C11
+//verif:replay none
+//verif:stub (*hop.computer/hop/tubes.Reliable).Read = c11RelRead
+//verif:stub (*hop.computer/hop/tubes.Reliable).Close = c11RelClose
+//verif:stub github.com/creack/pty.Setsize = c11Setsize
+//verif:bounds stream of n symbolic bytes, n picked from {0,3,8,12,16} (0..2 size updates, possibly cut short), then end of stream; session with a pty or without one (nil file); resizing succeeds or fails
+//verif:cover returned
+func VH_C11_window_size_reader_survives_sessions_without_a_pty() {
+	n := verifPick("streamlen", 0, 3, 8, 12, 16)
+	c11Tube.in, c11Tube.off = verifBytes("stream", n), 0
+	var f *os.File
+	if verifBool("session-has-a-pty") {
+		f = os.Stdout
+	}
+	HandleSize(&tubes.Reliable{}, f)
+	verifCover("returned")
 }
